@@ -27,3 +27,23 @@ package car
 
 //@ func NewCarReaderWithOptions
 //@   call[Pool.Get#0] assume pool_holds_only_bufio_readers: typeis(result, "*bufio.Reader")
+
+//@ func (*selectiveCarTraverser).loader
+//@   let hasres := call[Set.Has#0]
+//@   let size := call[util.LdSize#0]
+//@   call[dynamic#0] assert first_visit_only [C15]: !hasres
+//@   call[dynamic#0] assert reports_true_offset_and_size [C15]: arg0.Offset == sct.offset && arg0.Size == size && arg0.BlockCID == c && ref(arg0.Data) == ref(raw)
+//@   call[util.LdSize#0] assert same_bytes_as_written [C15]: len(arg0) == 2 && ref(arg0[1]) == ref(raw)
+//@   check offset_advances_once [C15]: err == nil ==> sct.offset == ite(hasres, old(sct.offset), wrap_u64(old(sct.offset) + size))
+
+//@ func (*selectiveCarTraverser).traverseHeader
+//@   let hsize, herr := call[HeaderSize#0]
+//@   call[dynamic#0] assert header [C15]: arg0.Version == 1
+//@   check offset_after_header [C15]: herr == nil ==> sct.offset == wrap_u64(old(sct.offset) + hsize)
+
+//@ func (SelectiveCarPrepared).Dump
+//@   loop[0] invariant offset_is_bytes_written [C15]: wn(w) - old(wn(w)) < 4611686018427387904 ==> offset == wn(w) - old(wn(w))
+//@   loop[0] invariant mono [C15]: wn(w) >= old(wn(w))
+//@   let size := call[util.LdSize#0]
+//@   call[util.LdWrite#0] assert same_section [C15]: ref(arg0) == ref(w) && len(arg1) == 2 && ref(arg1[1]) == ref(raw)
+//@   call[dynamic#0] assert reports_true_offset_and_size [C15]: arg0.Offset == offset && arg0.Size == size && arg0.BlockCID == c && ref(arg0.Data) == ref(raw)
